@@ -131,10 +131,13 @@ def check_generated(ref, pg, token_namespace, fail):
             return step + chain(a, t)
         return step
 
+    idmap = {id(d): d for dfas in pg.nonterminal_to_dfas.values() for d in dfas}
     for rule in rule_names:
         done = set()
         for S, did in sorted(pairs[rule], key=lambda p: p[1]):
-            D = _by_id(pg, rule, did)
+            D = idmap.get(did)
+            if D is None:
+                continue        # a state outside nonterminal_to_dfas: already reported by the product pass
             if did in done:
                 continue
             done.add(did)
@@ -182,17 +185,6 @@ def check_generated(ref, pg, token_namespace, fail):
                         fail(('plan-push-chain-wrong', rule), t)
                         break
     return nstates, ntrans
-
-
-_idmaps = {}
-
-
-def _by_id(pg, rule, did):
-    m = _idmaps.get(id(pg))
-    if m is None:
-        _idmaps.clear()
-        m = _idmaps[id(pg)] = {id(d): d for dfas in pg.nonterminal_to_dfas.values() for d in dfas}
-    return m[did]
 
 
 # ---- shipped grammar files ------------------------------------------------------------------
